@@ -239,6 +239,13 @@ def eval_raised(case_spec, rec):
                 if scenario == 'first' and (adir / key).exists():
                     raise Violation('failed-directory-result-visible', dict(info, listing=listing(data)))
             if kind == 'continues' and fault in ('raise-mid', 'interrupt-mid'):
+                if scenario == 'forced':
+                    # somebody else reads the finished result of the earlier run meanwhile: the work directory of
+                    # the interrupted recomputation is none of a reader's business
+                    with hyp.quiet_output():
+                        seen = listing(probe.chain(data)['g:a'].value)
+                    if not seen:
+                        raise Violation('finished-resumable-result-unreadable-meanwhile', dict(info, listing=listing(data)))
                 if not (adir / f'{key}_tmp' / 'v.txt').exists():
                     raise Violation('resumable-work-directory-lost', dict(info, listing=listing(data)))
                 if scenario == 'first' and (adir / key).exists():
